@@ -29,6 +29,7 @@ static inline void ABTD_spinlock_acquire(ABTD_spinlock *p_lock)
 {
     while (ABTD_atomic_test_and_set_bool(&p_lock->val)) {
         while (ABTD_spinlock_is_locked(p_lock) != ABT_FALSE)
+            ABTI_VERIF_SPIN_HINT(ABTI_VERIF_SITE_SPINLOCK, p_lock)
             ;
     }
 }
